@@ -261,10 +261,10 @@ struct OpScope {
     std::set<uint64_t> alloc(w.allocated.begin(), w.allocated.end()), born_live, freed_old;
     for (uint64_t id : w.allocated) { const BlockInfo* b = sa_by_id(id); if (b && b->live) born_live.insert(id); }
     for (uint64_t id : w.freed) if (!alloc.count(id)) freed_old.insert(id);
-    for (uint64_t id : born_live) if (!expect_born.count(id)) { fail((props + ",C04").c_str(), "op-leaks-block", ctx + fmt(": block #%llu (%zu bytes) allocated during the call is still live but belongs to nothing the call produced", (unsigned long long)id, sa_by_id(id)->size)); return; }
+    for (uint64_t id : born_live) if (!expect_born.count(id)) { fail((props + ",C04,C13").c_str(), "op-leaks-block", ctx + fmt(": block #%llu (%zu bytes) allocated during the call is still live but belongs to nothing the call produced", (unsigned long long)id, sa_by_id(id)->size)); return; }
     for (uint64_t id : expect_born) if (!born_live.count(id)) { fail(props.c_str(), "new-item-uses-older-block", ctx + fmt(": block #%llu of a freshly produced item was not allocated by this call (shared with something older)", (unsigned long long)id)); return; }
     for (uint64_t id : freed_old) if (!expect_freed.count(id)) { fail((props + ",C04").c_str(), "released-block-still-owned", ctx + fmt(": block #%llu was released although the ownership rules say its item is still referenced", (unsigned long long)id)); return; }
-    for (uint64_t id : expect_freed) if (!freed_old.count(id)) { fail((props + ",C04").c_str(), "dead-item-block-not-released", ctx + fmt(": block #%llu belongs to an item whose last reference went away, but it was not released", (unsigned long long)id)); return; }
+    for (uint64_t id : expect_freed) if (!freed_old.count(id)) { fail((props + ",C04,C13").c_str(), "dead-item-block-not-released", ctx + fmt(": block #%llu belongs to an item whose last reference went away, but it was not released", (unsigned long long)id)); return; }
   }
   // after a refused allocation: the call must have changed nothing
   void unchanged_after_refusal() {
@@ -505,6 +505,11 @@ OpResult Hist::run_op(const HOp& op0) {
         nodes[old].in_edges--; nodes[x].in_edges++; nodes[arr].kids[idx] = x;
         if (old != x) { for (int d : dying) { items_released++; if (nodes[d].in_edges + nodes[d].ext > 0) {} } apply_release(dying); }
         S.account();
+        if (op.code == OP_REPLACE && (op.d & 8) && !light && (op.c & 64) && arr != x && nodes[x].ext >= 1 && count(x) >= 2) {
+          // ... and having put the element in place, the client lets go of its own reference: the array is now what keeps it alive
+          OpScope S2(*this, op, "C04"); S2.begin(op); cbor_item_t* t = nodes[x].impl; cbor_decref(&t); S2.end();
+          nodes[x].ext--; pool.erase(pool.begin() + xi); S2.account(); stat_add("raw_handle_moves");
+        }
       } else {
         // out of range: refused, nothing touched
         S.begin(op);
